@@ -2,8 +2,10 @@
 import itertools
 
 from .. import progen
-from ..progen import I, L, S
-from ..progcheck import ProgCheck
+from ..progen import I, L, S, ERRPRINT, ERRITEM
+from ..progcheck import ProgCheck, strip_flags
+from ..core import Case, outcomes_agree
+from ..run import hx
 
 PROBE = [("let", "ZZ", I(0)), ("for", "QQ", I(1), I(3), None, "auto", [("let", "ZZ", ("bin", "ADD", ("var", "ZZ"), ("var", "QQ")))]),
          ("let", "ZW", I(0)), ("while", ("bin", "LT", ("var", "ZW"), I(2)), [("let", "ZW", ("bin", "ADD", ("var", "ZW"), I(1)))]),
@@ -43,7 +45,11 @@ class C07(ProgCheck):
             "x handler-name sets at two block levels (incl. OTHERS first/last, no handler); every program is followed, in the "
             "same context, by a probe program (for, while, begin/raise, return) whose result must be unaffected; observed: "
             "printed trace of which handler ran, error code reaching the host, variables, control/exec depth, constraint "
-            "flags; plus seeded random programs with a raised error rate. distinct = program text.")
+            "flags; plus seeded random programs with a raised error rate. Family errrec: the error record read through "
+            "error@1/@2/@3 in the clause, after an inner handled block, in a function called from the clause, after the block, "
+            "in an outer clause after the inner clause failed, by the next program of the same context after an error reached the "
+            "host; random programs read error@N in every expression position and report it in clauses and functions. "
+            "distinct = program text.")
 
     def gen_cases(self):
         quick = self.tier == "quick"
@@ -83,8 +89,206 @@ class C07(ProgCheck):
                 inner = ("begin", [("raise", "E1")], [("E1", [("print", [S("h1")]), fail, ("print", [S("h1 not reached?")])])])
                 outer = ("begin", wrap("for", [inner], "3"), [(nm, [("print", [S("outer " + nm)])]) for nm in h_out])
                 add(init + [outer, ("print", [S("end")])], {"family": "in-handler", "fail": fname})
+        # ---- the error record (error@1 name, error@2 message, error@3 code)
+        fread = ("func", "FREAD", [], "i", [ERRPRINT("in-f"), ("return", I(0))], [])
+        host_probe = [ERRPRINT("host")] + PROBE
+        ne = 0
+        seen = set()
+        for fname, fail in FAILS.items():
+            for fname2, fail2 in FAILS.items():
+                if quick and (len(fname) + 2 * len(fname2)) % 3 == 0 and fname != fname2:
+                    continue
+                for clause in (["OTHERS"], ["E1", "E2", "DIVIDE_BY_ZERO", "OUT_OF_RANGE"]):
+                    def whens(body, names=clause):
+                        return [(nm, list(body)) for nm in names]
+                    pre = [opaq, fread] + init[1:]
+                    # a: the clause reads its error; read again after the block
+                    def add2(p1, meta):
+                        cs = self.prog2_case("e%d" % len(cases), p1, host_probe, meta)
+                        if cs.model_line not in seen:
+                            seen.add(cs.model_line)
+                            cases.append(cs)
+                    add2(pre + [("begin", [fail], whens([ERRPRINT("h")])), ERRPRINT("after")], {"family": "errrec", "shape": "direct", "fail": fname})
+                    # b: an inner block handles its own error, then the outer clause reads again   (finding C07.error_record_cleared_by_inner_handler)
+                    inner = ("begin", [fail2], whens([ERRPRINT("inner")]))
+                    add2(pre + [("begin", [fail], whens([ERRPRINT("h"), inner, ERRPRINT("hagain")]))],
+                         {"family": "errrec", "shape": "inner-handled", "fail": fname, "same": [("h", "hagain", "C07.error_record_cleared_by_inner_handler")]})
+                    # c: an inner block that does not fail leaves the record alone
+                    quiet = ("begin", [("print", [S("quiet")])], whens([ERRPRINT("never")]))
+                    add2(pre + [("begin", [fail], whens([ERRPRINT("h"), quiet, ERRPRINT("hagain")]))],
+                         {"family": "errrec", "shape": "inner-quiet", "fail": fname, "same": [("h", "hagain", "C07.error_record_cleared_by_inner_handler")]})
+                    # d: a function called from the clause reads the record of ITS context
+                    add2(pre + [("begin", [fail], whens([ERRPRINT("h"), ("let", "R9", ("fcall", "FREAD", [])), ERRPRINT("hagain")]))],
+                         {"family": "errrec", "shape": "function-in-clause", "fail": fname, "same": [("h", "hagain", "C07.error_record_cleared_by_inner_handler")]})
+                    # e: the clause fails in turn; an outer clause / the host / the next program read the record
+                    failing = ("begin", [fail], whens([ERRPRINT("h"), fail2, ERRPRINT("h not reached?")]))
+                    add2(pre + [("begin", [failing], whens([ERRPRINT("outer")])), ERRPRINT("after")], {"family": "errrec", "shape": "clause-fails-caught", "fail": fname})
+                    add2(pre + [failing, ERRPRINT("after")], {"family": "errrec", "shape": "clause-fails-to-host", "fail": fname})
+                    # f: handled errors inside a loop inside the clause
+                    loop = ("for", "K8", I(1), I(2), None, "auto", [("begin", [("if", [(("bin", "EQ", ("var", "K8"), I(2)), [fail2])])], whens([ERRPRINT("inloop")])), ERRPRINT("iter")])
+                    add2(pre + [("begin", [fail], whens([loop, ERRPRINT("hend")]))], {"family": "errrec", "shape": "loop-in-clause", "fail": fname})
+                    ne += 8
+        self.stats["errrec_cases"] = sum(1 for c in cases if c.meta.get("family") == "errrec")
         for k in range(300 if quick else 5000):
-            g = progen.Gen(self.rng, nvars=2, funcs=(k % 2 == 0), errors=0.25)
+            g = progen.Gen(self.rng, nvars=2, funcs=(k % 2 == 0), errors=0.25, errrec=(0.08 if k % 3 else 0.0), extras=(0.15 if k % 2 else 0.0))
             add(g.program(nstmts=self.rng.randint(3, 6), depth=3), {"family": "random"})
-        self.stats["cases"] = n
+            for kk, vv in g.stats.items():
+                if kk.startswith(("error-", "handler-reports", "function-clause", "function-reads", "isnull")):
+                    self.stats.setdefault("errrec_random", {})[kk] = self.stats.get("errrec_random", {}).get(kk, 0) + vv
+        cases += self.interactive_cases(quick)
+        self.stats["cases"] = len(cases)
+        shapes = {}
+        for c in cases:
+            if c.meta.get("family") == "errrec":
+                k2 = c.meta["shape"] + "/" + c.meta["fail"]
+                shapes[k2] = shapes.get(k2, 0) + 1
+        self.stats["errrec_distribution"] = shapes
         return cases
+
+    # ------------------------------------------------------------------ the interactive runner (`bloc -i`), probe op `istep`
+    KF_INTER = "C07.interactive_runner_keeps_control_entry"
+
+    def inter_case(self, cid, prog, meta):
+        src = progen.program_src(prog)
+        m = dict(meta)
+        m["src"] = src
+        m["family"] = "interactive"
+        return Case(cid, "isteps %d %s" % (self.fuel, hx(progen.program_sexp(prog))),
+                    "|".join(["new 0", "istep 0 %s" % hx(src), "out 0", "dump 0"]), m)
+
+    def interactive_cases(self, quick):
+        r = self.rng
+        cases = []
+        fresh = [0]
+
+        def nm(p):
+            fresh[0] += 1
+            return "%s%d" % (p, fresh[0])
+
+        div0 = ("bin", "GT", ("bin", "DIV", I(1), ("var", "ZERO")), I(0))
+
+        def atom(kind):
+            """one statement typed at the prompt (sometimes preceded by the assignment it needs) -> (statements, leaves an entry?, purges?)"""
+            if kind == "while-cond-fails":
+                return [("while", div0, [("nop",)])]
+            if kind == "while-cond-fails-later":
+                w = nm("W")
+                return [("let", w, I(0)), ("while", ("bin", "GT", ("bin", "DIV", I(10), ("bin", "SUB", I(1), ("var", w))), I(0)),
+                                           [("let", w, ("bin", "ADD", ("var", w), I(1))), ("print", [S("it"), ("var", w)])])]
+            if kind == "while-body-fails":
+                w = nm("W")
+                return [("let", w, I(0)), ("while", ("bin", "LT", ("var", w), I(3)), [("let", w, ("bin", "ADD", ("var", w), I(1))), r.choice(list(FAILS.values()))])]
+            if kind == "while-ok":
+                w = nm("W")
+                return [("let", w, I(0)), ("while", ("bin", "LT", ("var", w), I(2)), [("let", w, ("bin", "ADD", ("var", w), I(1))), ("print", [S("w"), ("var", w)])])]
+            if kind == "for-var-null":
+                k = nm("K")
+                return [("for", k, I(1), I(3), None, r.choice(["auto", "asc"]), [("print", [S("k"), ("var", k)]), ("let", k, L("N:i0"))])]
+            if kind == "for-body-fails":
+                k = nm("K")
+                return [("for", k, I(1), I(3), None, "auto", [("print", [S("k"), ("var", k)]), r.choice(list(FAILS.values()))])]
+            if kind == "for-header-fails":
+                k = nm("K")
+                return [("for", k, I(1), ("bin", "DIV", I(3), ("var", "ZERO")), None, "auto", [("nop",)])]
+            if kind == "for-ok":
+                k = nm("K")
+                return [("for", k, I(1), I(2), None, "auto", [("print", [S("q"), ("var", k)])])]
+            if kind == "for-break":
+                k = nm("K")
+                return [("for", k, I(1), I(5), None, "auto", [("if", [(("bin", "EQ", ("var", k), I(2)), [("break",)])]), ("print", [S("b"), ("var", k)])])]
+            if kind == "simple-fails":
+                return [r.choice(list(FAILS.values()))]
+            if kind == "if-cond-fails":
+                return [("if", [(div0, [("print", [S("never")])])])]
+            if kind == "if-body-fails":
+                return [("if", [(("bin", "EQ", ("var", "ZERO"), I(0)), [r.choice(list(FAILS.values()))])])]
+            if kind == "begin-handles":
+                return [("begin", [("raise", "E1")], [("E1", [ERRPRINT("h")])])]
+            if kind == "begin-unmatched":
+                return [("begin", [("for", nm("K"), I(1), I(2), None, "auto", [("raise", "E2")])], [("E1", [("nop",)])])]
+            if kind == "begin-loop-header-fails":
+                return [("begin", [("while", div0, [("nop",)])], [])]
+            if kind == "print":
+                return [("print", [S("alive"), ERRITEM(3)])]
+            raise ValueError(kind)
+
+        kinds = ["while-cond-fails", "while-cond-fails-later", "while-body-fails", "while-ok", "for-var-null", "for-body-fails", "for-header-fails",
+                 "for-ok", "for-break", "simple-fails", "if-cond-fails", "if-body-fails", "begin-handles", "begin-unmatched", "begin-loop-header-fails", "print"]
+        opaq = ("func", "OPAQ", ["X"], "?", [("return", ("var", "X"))], [])
+        init = [opaq, ("let", "ZERO", I(0)), ("let", "BIG", I(300))]
+        dist = {}
+        n = 0
+
+        def add(seq):
+            nonlocal n
+            prog = list(init)
+            for k in seq:
+                dist[k] = dist.get(k, 0) + 1
+                prog += atom(k)
+            n += 1
+            cases.append(self.inter_case("i%d" % n, prog, {"kinds": seq}))
+
+        for k1 in kinds:                      # every kind alone, and followed by every kind (complete)
+            add([k1])
+            for k2 in kinds:
+                add([k1, k2, "print"])
+        for _ in range(200 if quick else 4000):
+            add([r.choice(kinds) for _ in range(r.randint(3, 6))])
+        # random programs, their top-level statements typed one by one
+        for k in range(150 if quick else 3000):
+            g = progen.Gen(r, nvars=2, funcs=(k % 2 == 0), errors=0.25, errrec=(0.08 if k % 3 == 0 else 0.0))
+            n += 1
+            cases.append(self.inter_case("i%d" % n, g.program(nstmts=r.randint(3, 6), depth=3), {"kinds": ["random"]}))
+        self.stats["interactive_cases"] = n
+        self.stats["interactive_distribution"] = dist
+        return cases
+
+    def judge(self, c, iraw, m, stderr):
+        if c.meta.get("family") != "interactive":
+            return ProgCheck.judge(self, c, iraw, m, stderr)
+        outcome, out, dump = self.split_impl(c, iraw)
+        self.tally(c, "interactive", m)
+        mout = m.get("model")
+        if mout is None:
+            return self.record_violation("model gave no answer", c, outcome, m)
+        import re
+        mm = re.match(r"^(.*?) out=([0-9a-f]*) vars=(.*)$", mout)
+        if not mm:
+            return self.record_violation("unparsable model answer", c, outcome, m)
+        moutc, mo, mvars = mm.group(1), mm.group(2), mm.group(3)
+        self.distinct.add((c.model_line,))
+        if "unmodelled" in moutc or "oof" in moutc:
+            self.stats["interactive_unmodelled"] = self.stats.get("interactive_unmodelled", 0) + 1
+            return
+        m2 = dict(m)
+        m2["model"] = moutc
+        if "hazard" in moutc:
+            return self.record_violation("model reaches a C-level hazard in an interactive run", c, outcome, m2, stderr)
+        if outcome is None or dump is None:
+            return self.record_violation("interactive run did not complete: %s" % iraw[:200], c, outcome, m2, stderr)
+        if outcome != moutc:
+            return self.record_violation("interactive run: statement outcomes differ from the model", c, outcome, m2, stderr)
+        if out != mo:
+            return self.record_violation("interactive run: printed output differs from the model: impl %r model %r" % (
+                bytes.fromhex(out or "").decode("latin-1")[:300], bytes.fromhex(mo).decode("latin-1")[:300]), c, outcome, m2)
+        for ent in mvars.split(";") if mvars else []:
+            name, _, val = ent.partition(":")
+            got = dump["syms"].get(name)
+            if got is None:
+                continue            # a statement the parser refused, or one never reached, registers nothing
+            if strip_flags(got[2]) != val:
+                return self.record_violation("interactive run: variable %s = %s, the model gives %s" % (name, strip_flags(got[2]), val), c, outcome, m2)
+        mcd = int((m.get("note") or "cd=-1").split("=")[1])
+        if dump["cd"] != mcd:
+            return self.record_violation("interactive run: control depth %d after the session, the model gives %d" % (dump["cd"], mcd), c, outcome, m2)
+        if dump["ed"] != 0 or dump["tmp"] != 0:
+            return self.record_violation("interactive run: exec depth %d, temporaries %d after the session" % (dump["ed"], dump["tmp"]), c, outcome, m2)
+        d = self.stats.setdefault("interactive_control_depth", {})
+        d[str(mcd)] = d.get(str(mcd), 0) + 1
+        if mcd != 0:
+            # the property (no residue after a reported error) is contradicted; model and implementation agree: recorded finding
+            entry = next((f for f in self.findings if f["id"] == self.KF_INTER and f.get("status", "known") == "known"), None)
+            if entry is None:
+                return self.record_violation("interactive run leaves %d control entries (model agrees) and no known finding covers it" % mcd, c, outcome, m2)
+            self.known_hits.setdefault(self.KF_INTER, {"what": entry["what"], "example": c.meta.get("src", "")[-160:].replace("\n", " "),
+                                                       "impl": "%s cd=%d" % (outcome, dump["cd"])})
